@@ -501,18 +501,38 @@ def nm(s: str) -> str:
     return hx(s)
 
 
-def run_calls(obj, words, pos):
-    """execute an encoded call list on `obj`; returns the new position (after the closing E).  Keyword-argument calls
-    are collected and applied through init_kwargs in order (that is what the constructor does)."""
+def run_calls(obj, words, pos, cls=None):
+    """execute an encoded call list on `obj` (or, with `cls`, on the object `cls(**leading keyword group)` constructs); returns the
+    new position (after the closing E) - and the object when `cls` was given.  Consecutive keyword-argument words with distinct
+    names are ONE call `init_kwargs(a=…, b=…, c=…)` (a leading group goes through the constructor itself): the statements must
+    appear in argument order whatever kinds of values (plain, pairs, nested blocks) are mixed in the call."""
+    pending = {}
+
+    def flush():
+        nonlocal obj
+        if obj is None:
+            obj = cls(**pending)
+        elif pending:
+            obj.init_kwargs(**pending)
+        pending.clear()
+
+    def kw(name, value):
+        if name in pending:
+            flush()
+        pending[name] = value
+
     while True:
         w = words[pos]
         pos += 1
         if w == "E":
-            return pos
+            flush()
+            return pos if cls is None else (obj, pos)
         f = w.split(":")
         op = f[0]
+        if op not in ("kv", "kp", "kb"):
+            flush()
         if op == "kv":
-            obj.init_kwargs(**{unhx(f[1]): dec_val(f[2])})
+            kw(unhx(f[1]), dec_val(f[2]))
         elif op == "so":
             obj.set_option(unhx(f[1]), dec_val(f[2]))
         elif op == "en":
@@ -523,7 +543,7 @@ def run_calls(obj, words, pos):
             pos += 2 * n
             ps = [(vals[2 * i], vals[2 * i + 1]) for i in range(n)]
             if op == "kp":
-                obj.init_kwargs(**{unhx(f[1]): ps})
+                kw(unhx(f[1]), ps)
             elif op == "pr":
                 obj._pair(unhx(f[1]), ps)
             elif op == "hd":
@@ -533,7 +553,7 @@ def run_calls(obj, words, pos):
         elif op in ("kb", "cb", "ne"):
             blk, pos = run_block(words, pos)
             if op == "kb":
-                obj.init_kwargs(**{unhx(f[1]): blk})
+                kw(unhx(f[1]), blk)
             elif op == "cb":
                 obj.set_config_block(unhx(f[1]), blk)
             else:
@@ -547,9 +567,7 @@ def run_block(words, pos):
     pos += 1
     if w[0] == "C":
         name = CLASSES[int(w[1:])][0]
-        obj = CLS_OBJ[name]()
-        pos = run_calls(obj, words, pos)
-        return obj, pos
+        return run_calls(None, words, pos, cls=CLS_OBJ[name])
     n = int(w[2:])
     items = words[pos:pos + n]
     pos += n
@@ -579,8 +597,7 @@ def dec_val(w: str):
 
 
 def profile_from_calls(words):
-    prof = C2Profile()
-    pos = run_calls(prof, words, 0)
+    prof, pos = run_calls(None, words, 0, cls=C2Profile)
     assert pos == len(words)
     return prof
 
@@ -1353,9 +1370,18 @@ def impl(stream, line):
         outs, fresh = [], []
         for op in parts[1:]:
             if op[0] in ("get", "prop"):
+                probe_ok = True
                 try:
                     d = prof.as_dict() if op[0] == "get" else prof.properties
                     o = show_dict(list(d.items()))
+                    # READING a key the profile does not have is a KeyError and changes nothing (the view is a plain mapping of
+                    # what the profile says, not a defaultdict that grows on lookup)
+                    try:
+                        d["\x00no such key"]
+                        probe_ok = False
+                    except KeyError:
+                        pass
+                    probe_ok = probe_ok and "\x00no such key" not in d and show_dict(list(d.items())) == o
                 except _LARK_ERRS:
                     o = "none"
                 except Exception as e:  # noqa: BLE001
@@ -1367,7 +1393,7 @@ def impl(stream, line):
                 outs.append(o)
                 fp = C2Profile()
                 fp.tree = copy.deepcopy(prof.tree)
-                fresh.append(C.tf(outcome(fp) == o))
+                fresh.append(C.tf(outcome(fp) == o and probe_ok))
             elif op[0] == "opt":
                 prof.set_option(unhx(op[1]), dec_val(op[2]))
             elif op[0] == "app":
